@@ -350,6 +350,8 @@ class Machine:
                 path = []
             elif n == "n":
                 path = []
+            elif n in ("W", "W*"):
+                pass  # clipping: no effect on what is reported
             elif n == "Do":
                 form = self.forms.get(a[0].b)
                 if form is not None and depth < 6:
@@ -389,6 +391,8 @@ class Machine:
         return pen
 
     def paint(self, g, path, stroke, fill, evenodd):
+        if path and path[0][0] != "m":
+            return  # a path must begin with m or re; an invalid one paints nothing
         # split into subpaths at every m
         subs = []
         for seg in path:
